@@ -319,10 +319,19 @@ func GenDirect(r *Rng, maxn int) *In {
 // integer matrix P T P^-1 with T upper triangular (diagonal drawn from a small
 // set, so eigenvalues repeat) and P a product of integer shears: the spectrum is
 // real and known exactly, the entries are small integers.
-func intSimilar(r *Rng, n int) *FM {
+func intSimilar(r *Rng, n int) (*FM, bool) {
 	t := NewFM(n, n)
+	distinct := true
 	for i := 0; i < n; i++ {
 		t.Set(i, i, float64(r.Range(-2, 3)))
+		if r.Intn(3) != 0 { // mostly distinct, well separated eigenvalues
+			t.Set(i, i, float64(2*i-n)+0.5*float64(r.Intn(2)))
+		}
+		for j := 0; j < i; j++ {
+			if t.At(j, j) == t.At(i, i) {
+				distinct = false
+			}
+		}
 		for j := i + 1; j < n; j++ {
 			if r.Intn(3) != 0 {
 				t.Set(i, j, float64(r.Range(-2, 2)))
@@ -341,7 +350,7 @@ func intSimilar(r *Rng, n int) *FM {
 		q.Set(i, j, -c)
 		a = p.Mul(a).Mul(q)
 	}
-	return a
+	return a, distinct
 }
 
 func companion(r *Rng, n int) *FM {
@@ -409,7 +418,12 @@ func genSquareIter(r *Rng, n int) (*FM, string, bool) {
 		a, f := genGeneral(r, n, n)
 		return a, f, false
 	case 1:
-		return intSimilar(r, n), "int-similar-real-spectrum", true
+		a, distinct := intSimilar(r, n)
+		if distinct {
+			return a, "int-similar-distinct-real-spectrum", true
+		}
+		// a repeated eigenvalue of a non-symmetric matrix splits into a complex pair under rounding
+		return a, "int-similar-repeated-eigenvalue", false
 	case 2:
 		a, f := genSymGeneral(r, n)
 		return a, f, true
@@ -423,6 +437,11 @@ func genSquareIter(r *Rng, n int) (*FM, string, bool) {
 		for i := 0; i < n; i++ {
 			for j := 0; j+w < i; j++ {
 				a.Set(i, j, 0)
+			}
+		}
+		if w == 0 {
+			for i := 0; i < n; i++ { // distinct diagonal: the spectrum of the triangular matrix stays real
+				a.Set(i, i, float64(2*i-n))
 			}
 		}
 		return a, "already-reduced", w == 0
